@@ -85,7 +85,8 @@ def first_parse_kind(obj) -> str:
     if name == "Ace":
         return f"Ace-{obj.type}" + ("-options" if obj.option.line else "")
     if name in ("Address", "AddressAg"):
-        if name == "AddressAg" and obj.platform == "ios" and obj.line == "0.0.0.0 0.0.0.0":
+        if name == "AddressAg" and obj.platform == "ios" and obj.line.split()[-2:] == ["0.0.0.0", "0.0.0.0"]:
+            # with or without a sequence number in front: one root cause, one listed finding
             return "AddressAg-ios-zero-mask"
         return f"{name}-{obj.type}"
     if name in ("Acl", "AceGroup", "AddrGroup"):
@@ -118,6 +119,18 @@ def reaccept(v: Verdict, target, platform, obj, text):
         if res[0] == "ok":
             continue
         kind = first_parse_kind(o)
+        if res[0] == "err" and cls is C.AddrGroup:
+            # a group is refused because of a member that is refused on its own: report the member (root cause),
+            # so that one defect has one bucket whether it is met directly or through its container
+            kinds = set()
+            for m in o.items:
+                if type(m).__name__ == "AddressAg" and guarded_call(lambda m=m: type(m)(m.line, platform=platform))[0] == "err":
+                    kinds.add(first_parse_kind(m))
+            if kinds:
+                for k in sorted(kinds):
+                    v.fail(f"reaccept:AddressAg:{k}", {"text": text[:300], "platform": platform, "rendered": line[:300],
+                                                       "via": target, "error": f"{type(res[1]).__name__}: {res[1]}"[:200]})
+                continue
         if res[0] == "err":
             v.fail(f"reaccept:{target}:{kind}", {"text": text[:300], "platform": platform, "rendered": line[:300],
                                                  "error": f"{type(res[1]).__name__}: {res[1]}"[:200]})
